@@ -158,6 +158,7 @@ fn('linear._Linear._fit_arm', props='C02 C05 C06 C17 C20',
             % (MV('l2_lambda', 'arm'), MV('alpha', 'arm'), MV('scale', 'arm')),
             '[shape] ' + MODEL_SHAPE.replace('"), ', '"), ').replace("val(self.arm_to_model, a,", "val(self.arm_to_model, arm,"),
             '[scaler] is_none(%s) == (not self.scale)' % MV('scaler', 'arm'),
+            '[C02,arm.scaler] implies(cnt(decisions, arm) > 0 and self.scale, %s == %s)' % (MV('scaler', 'arm'), SCA),
             # a model that has seen data owns a private copy of its generator (deepcopy of the model)
             '[C05,C07,rng.private] implies(cnt(decisions, arm) > 0, not %s)' % MV('#rng_shared', 'arm')])
 
@@ -183,6 +184,10 @@ fn('linear._Linear.fit', props='C02 C06 C07 C08 C20',
             '[C02,C07,fresh.Xty] ' + forall_arms('implies(cnt(decisions, a) > 0, %s == %s)' % (MV('Xty'), XTY0)),
             '[C02,C07,fresh.solution] ' + forall_arms('implies(cnt(decisions, a) > 0, %s == minv(%s) and %s == matvec(%s, %s))'
                                                       % (MV('A_inv'), MV('A'), MV('beta'), MV('A_inv'), MV('Xty'))),
+            '[C02,C07,fresh.Ainv0] ' + forall_arms('implies(cnt(decisions, a) == 0, %s == smul(self.l2_lambda, ident(%s)))'
+                                                   % (MV('A_inv'), D_)),
+            '[C02,C07,fresh.scaler] ' + forall_arms('%s == ((%s if cnt(decisions, a) > 0 else UNFITTED()) if self.scale '
+                                                    'else none_scaler())' % (MV('scaler'), SC0)),
             '[C07,C13,fresh.status] ' + STATUS_AFTER_FIT,
             # C07 for LinTS: which generator a model draws from must not depend on earlier fits (known finding D6)
             '[C07,fresh.rng] implies(self.regression == "ts", ' +
@@ -227,6 +232,9 @@ UCB_IA = ('(vdot(row(%s, i), %s) + self.alpha * sqrt(vdot(vecmat(row(%s, i), %s)
           % (XPA, MV('beta'), XPA, MV('A_inv'), XPA))
 DET_IA = '(%s if self.regression == "ridge" else %s)' % (RIDGE_IA, UCB_IA)
 EXP_ROW = '(result if is_dict(result) else item(result, i))'
+MASK = 'lt_mask(%s, self.epsilon)' % P_
+RANDOM = 'draw_um(next_uv(%s, rows(contexts)), n_true(%s), slen(self.arms))' % (S0, MASK)
+ANY_IA = '(mat_at(%s, rank_true(%s, i), pos(self.arms, a)) if at(%s, i) < self.epsilon else %s)' % (RANDOM, MASK, P_, DET_IA)
 fn('linear._Linear._vectorized_predict_context', props='C02 C08 C09 C10',
    params={'contexts': 'mat', 'is_predict': 'bool'}, result=vec_result,
    requires=['INV', 'not is_none(self.num_features)', 'cols(contexts) == self.num_features', 'rows(contexts) >= 1',
@@ -242,6 +250,12 @@ fn('linear._Linear._vectorized_predict_context', props='C02 C08 C09 C10',
             '[C02,exploit] is_predict or self.regression == "ts" or implies(%s, forall_int(lambda i: implies(0 <= i and '
             'i < rows(contexts), forall_arm(lambda a: implies(mem(self.arms, a), val(%s, a) == %s)))))'
             % (NONE_RANDOM, EXP_ROW, DET_IA),
+            # ... and an exploring row holds its own row of uniform draws: every expectation of every row is determined
+            '[C02,C05,rows] is_predict or self.regression == "ts" or forall_int(lambda i: implies(0 <= i and '
+            'i < rows(contexts), forall_arm(lambda a: implies(mem(self.arms, a), val(%s, a) == %s))))' % (EXP_ROW, ANY_IA),
+            '[C09,C05,rows.argmax] (not is_predict) or self.regression == "ts" or forall_int(lambda i: implies(0 <= i and '
+            'i < rows(contexts), is_first_argmax((result if not is_list(result) else at(result, i)), self.arms, '
+            'lambda a: %s)))' % ANY_IA,
             # C09: predict takes the first arm attaining the maximum of the same expectations
             '[C09,argmax] (not is_predict) or self.regression == "ts" or implies(%s, forall_int(lambda i: implies(0 <= i and '
             'i < rows(contexts), is_first_argmax((result if not is_list(result) else at(result, i)), self.arms, '
